@@ -481,6 +481,8 @@ def build_node(cfg, nid, members, vfs_obj=None, now=T0, kills=0, extra=None):
     b.tr = SimTransport(nid)
     b.rec = Recorder()
     seams.CLOCK[0] = now
+    seams.CLOCK_DRIFT[0] = 0.0
+    seams.RAND[0] = 0.0      # (a previous closing run may have left another answer behind)
     vfs.activate(b.vfs)
     b.vfs.begin_step()
     conf = make_conf(cfg, b.rec, nid)
